@@ -1072,7 +1072,7 @@ theorem tableRow_go_congr (inv : LineInv Q R) (cfg' cfg : Document.Cfg) (fn : Fo
 theorem tableRow_congr (inv : LineInv Q R) (cfg' cfg : Document.Cfg) (fn : Footnotes.Table)
     (H : InlSame R cfg' cfg fn) (line : Str) (hq : Q line) (al : List (Option Nat)) (ln : Nat) :
     tableRow cfg' fn line al ln = tableRow cfg fn line al ln := by
-  unfold tableRow
+  unfold Document.tableRow
   simp only
   rw [tableRow_go_congr inv cfg' cfg fn H ln]
   intro z hz c hc
@@ -1133,7 +1133,7 @@ theorem mkBlock_congr (inv : LineInv Q R) (cfg' cfg : Document.Cfg) (fn : Footno
       refine inv.join _ ?_
       intro l hl
       obtain ⟨l', hl', rfl⟩ := List.mem_map.mp hl
-      exact inv.toR _ _ (hq l' (List.mem_of_mem_dropLast hl')) (strip_infix l')
+      exact inv.toR _ _ (hq l' (List.dropLast_subset _ hl')) (strip_infix l')
     simp only [mkBlock]; rw [H _ hr]
   | .htmlBlock .., _ => by simp only [mkBlock]
   | .blankLine .., _ => by simp only [mkBlock]
@@ -1189,5 +1189,718 @@ theorem parse_insert (inv : LineInv Q R) (cfg' cfg : Document.Cfg) (pre post : L
   exact tokenizeInner_insert pre post x fn u (htrig u hu)
 
 end Congr
+
+
+/-! ## Part 4: the two instances -/
+
+/-! ### the lines of a text are pieces of the text -/
+
+theorem splitlinesAux_infix : ∀ (s acc : Str), ∀ l ∈ Lines.splitlinesAux s acc, l <:+: acc.reverse ++ s
+  | [], acc, l, h => by
+    simp only [Lines.splitlinesAux] at h
+    split at h
+    · cases h
+    · simp only [List.mem_singleton] at h; subst h; simp
+  | c :: rest, acc, l, h => by
+    unfold Lines.splitlinesAux at h
+    split at h
+    · rename_i hcr
+      subst hcr
+      split at h
+      · rename_i rest'
+        rcases List.mem_cons.mp h with rfl | h
+        · exact ⟨[], rest', by simp⟩
+        · have := splitlinesAux_infix rest' [] l h
+          simp only [List.reverse_nil, List.nil_append] at this
+          exact this.trans ⟨acc.reverse ++ ['\r', '\n'], [], by simp⟩
+      · rcases List.mem_cons.mp h with rfl | h
+        · exact ⟨[], rest, by simp⟩
+        · have := splitlinesAux_infix rest [] l h
+          simp only [List.reverse_nil, List.nil_append] at this
+          exact this.trans ⟨acc.reverse ++ ['\r'], [], by simp⟩
+    · split at h
+      · rcases List.mem_cons.mp h with rfl | h
+        · exact ⟨[], rest, by simp⟩
+        · have := splitlinesAux_infix rest [] l h
+          simp only [List.reverse_nil, List.nil_append] at this
+          exact this.trans ⟨acc.reverse ++ [c], [], by simp⟩
+      · have := splitlinesAux_infix rest (c :: acc) l h
+        simpa using this
+
+theorem pySplitlines_infix (t : Str) : ∀ l ∈ Lines.pySplitlines t, l <:+: t := by
+  intro l hl
+  have := splitlinesAux_infix t [] l hl
+  simpa using this
+
+theorem endsWithNl_getLast : ∀ (l : Str), endsWithNl l = true → l.getLast? = some '\n'
+  | [], h => by simp [endsWithNl] at h
+  | [c], h => by simp only [endsWithNl, beq_iff_eq] at h; simp [h]
+  | _ :: y :: rest, h => by
+    simp only [endsWithNl] at h
+    have := endsWithNl_getLast (y :: rest) h
+    rw [List.getLast?_cons, this]; rfl
+
+/-! ### no '$' -/
+
+def NoD (s : Str) : Prop := '$' ∉ s
+
+theorem mem_replaceFirst (pat rep : Str) : ∀ (s : Str) (c : Char), c ∈ replaceFirst pat rep s → c ∈ rep ∨ c ∈ s
+  | [], _, h => by simp [replaceFirst] at h
+  | x :: rest, c, h => by
+    simp only [replaceFirst] at h
+    split at h
+    · rcases List.mem_append.mp h with h1 | h1
+      · exact Or.inl h1
+      · exact Or.inr (List.mem_of_mem_drop h1)
+    · rcases List.mem_cons.mp h with rfl | h1
+      · exact Or.inr (List.mem_cons_self ..)
+      · rcases mem_replaceFirst pat rep rest c h1 with h2 | h2
+        · exact Or.inl h2
+        · exact Or.inr (List.mem_cons_of_mem _ h2)
+
+theorem mem_unescapePipes : ∀ (n : Nat) (p : Option Char) (t : Str) (c : Char),
+    c ∈ unescapePipes n p t → c ∈ t ∨ c = '\\' ∨ c = '|'
+  | 0, _, _, _, h => by simp only [unescapePipes] at h; exact Or.inl h
+  | _ + 1, _, [], _, h => by simp [unescapePipes] at h
+  | n + 1, p, x :: rest, c, h => by
+    simp only [unescapePipes] at h
+    split at h
+    · rcases List.mem_append.mp h with h1 | h1
+      · rcases List.mem_append.mp h1 with h2 | h2
+        · split at h2
+          · simp only [List.mem_cons, List.not_mem_nil, or_false, or_self] at h2
+            exact Or.inr (Or.inl h2)
+          · cases h2
+        · simp only [List.mem_singleton] at h2
+          exact Or.inr (Or.inr h2)
+      · rcases mem_unescapePipes n _ _ c h1 with h2 | h2
+        · exact Or.inl (List.mem_of_mem_drop h2)
+        · exact Or.inr h2
+    · rcases List.mem_cons.mp h with rfl | h1
+      · exact Or.inl (List.mem_cons_self ..)
+      · rcases mem_unescapePipes n _ _ c h1 with h2 | h2
+        · exact Or.inl (List.mem_cons_of_mem _ h2)
+        · exact Or.inr h2
+
+theorem mem_joinNl : ∀ (ls : List Str) (c : Char), c ∈ joinNl ls → c = '\n' ∨ ∃ l ∈ ls, c ∈ l
+  | [], _, h => by simp [joinNl] at h
+  | [x], c, h => by simp only [joinNl] at h; exact Or.inr ⟨x, List.mem_cons_self .., h⟩
+  | x :: y :: rest, c, h => by
+    simp only [joinNl, List.mem_append, List.mem_singleton] at h
+    rcases h with (h1 | h1) | h1
+    · exact Or.inr ⟨x, List.mem_cons_self .., h1⟩
+    · exact Or.inl h1
+    · rcases mem_joinNl (y :: rest) c h1 with h2 | ⟨l, hl, hc⟩
+      · exact Or.inl h2
+      · exact Or.inr ⟨l, List.mem_cons_of_mem _ hl, hc⟩
+
+theorem noD_inv : LineInv NoD NoD where
+  suffix := fun _ _ h hs hm => h (hs.subset hm)
+  spaces := fun _ _ h hm => by
+    rcases List.mem_append.mp hm with h1 | h1
+    · exact absurd (List.eq_of_mem_replicate h1) (by decide)
+    · exact h h1
+  gt := fun _ h hm => by
+    rcases List.mem_cons.mp hm with h1 | h1
+    · exact absurd h1 (by decide)
+    · exact h h1
+  tab := fun s h hm => by
+    rcases mem_replaceFirst _ _ s _ hm with h1 | h1
+    · simp at h1
+    · exact h h1
+  nl := by simp [NoD]
+  nlcut := fun a b h hm => by
+    apply h
+    rcases List.mem_append.mp hm with h1 | h1
+    · exact List.mem_append_left _ h1
+    · simp at h1
+  toR := fun _ _ h hs hm => h (hs.subset hm)
+  flat := fun ls h hm => by
+    obtain ⟨l, hl, hc⟩ := List.mem_flatten.mp hm
+    exact h l hl hc
+  rinfix := fun _ _ h hs hm => h (hs.subset hm)
+  rnil := by simp [NoD]
+  join := fun ls h hm => by
+    rcases mem_joinNl ls _ hm with h1 | ⟨l, hl, hc⟩
+    · exact absurd h1 (by decide)
+    · exact h l hl hc
+  unesc := fun n p t h hm => by
+    rcases mem_unescapePipes n p t _ hm with h1 | h1 | h1
+    · exact h h1
+    · exact absurd h1 (by decide)
+    · exact absurd h1 (by decide)
+
+theorem normalize_noD (t : Str) (h : '$' ∉ t) : ∀ l ∈ Lines.normalize (.str t), NoD l := by
+  intro l hl
+  simp only [Lines.normalize, List.mem_map] at hl
+  obtain ⟨l0, hl0, rfl⟩ := hl
+  have h0 : '$' ∉ l0 := fun hm => h ((pySplitlines_infix t l0 hl0).subset hm)
+  unfold Lines.complete
+  split
+  · exact h0
+  · intro hm
+    rcases List.mem_append.mp hm with h1 | h1
+    · exact h0 h1
+    · simp at h1
+
+/-! ### no "[[" -/
+
+/-- no two adjacent '[' -/
+def NoBB (s : Str) : Prop := ¬ (['[', '['] <:+: s)
+/-- the string does not end with '[' -/
+def EndOk (s : Str) : Prop := s.getLast? ≠ some '['
+/-- the line invariant: no "[[" inside, and none can arise by appending another line -/
+def WQ (s : Str) : Prop := NoBB s ∧ EndOk s
+
+theorem isInfix_iff (sub : Str) : ∀ (s : Str), isInfix sub s = true ↔ sub <:+: s
+  | [] => by simp [isInfix]
+  | c :: rest => by
+    simp only [isInfix, Bool.or_eq_true, List.isPrefixOf_iff_prefix, isInfix_iff sub rest, List.infix_cons_iff]
+
+theorem noBB_of_isInfix (s : Str) (h : isInfix ['[', '['] s = false) : NoBB s := by
+  intro hi
+  rw [← isInfix_iff] at hi
+  rw [hi] at h; cases h
+
+theorem isInfix_of_noBB (s : Str) (h : NoBB s) : isInfix ['[', '['] s = false :=
+  Bool.eq_false_iff.mpr (fun hi => h ((isInfix_iff _ _).mp hi))
+
+theorem noBB_nil : NoBB [] := by simp [NoBB]
+
+theorem noBB_cons (x : Char) (l : Str) : NoBB (x :: l) ↔ ¬(x = '[' ∧ l.head? = some '[') ∧ NoBB l := by
+  unfold NoBB
+  rw [List.infix_cons_iff, List.cons_prefix_cons]
+  have : (['['] <+: l) ↔ l.head? = some '[' := by
+    cases l with
+    | nil => simp
+    | cons y ys => simp [List.cons_prefix_cons, eq_comm]
+  rw [this]
+  constructor
+  · intro h; exact ⟨fun ⟨a, b⟩ => h (Or.inl ⟨a.symm, b⟩), fun c => h (Or.inr c)⟩
+  · rintro ⟨h1, h2⟩ (⟨a, b⟩ | c)
+    · exact h1 ⟨a.symm, b⟩
+    · exact h2 c
+
+theorem noBB_cons_ne (x : Char) (l : Str) (hx : x ≠ '[') (h : NoBB l) : NoBB (x :: l) :=
+  (noBB_cons x l).mpr ⟨fun ⟨a, _⟩ => hx a, h⟩
+
+theorem endOk_tail (x : Char) (l : Str) (h : EndOk (x :: l)) : EndOk l := by
+  intro hl
+  apply h
+  rw [List.getLast?_cons, hl]; rfl
+
+theorem endOk_append_cons (p : Str) (x : Char) (b : Str) : EndOk (p ++ x :: b) ↔ b.getLast?.getD x ≠ '[' := by
+  simp [EndOk, List.getLast?_append, List.getLast?_cons]
+
+theorem endOk_cons (x : Char) (b : Str) : EndOk (x :: b) ↔ b.getLast?.getD x ≠ '[' :=
+  endOk_append_cons [] x b
+
+theorem endOk_cons_ne (x : Char) (l : Str) (hx : x ≠ '[') (h : EndOk l) : EndOk (x :: l) := by
+  rw [endOk_cons]
+  cases hl : l.getLast? with
+  | none => exact hx
+  | some z => simp only [Option.getD_some]; intro e; exact h (by rw [hl, e])
+
+theorem endOk_suffix (s t : Str) (hs : t <:+ s) (h : EndOk s) : EndOk t := by
+  obtain ⟨p, rfl⟩ := hs
+  intro ht
+  apply h
+  rw [List.getLast?_append, ht]; rfl
+
+theorem noBB_append : ∀ (a b : Str), NoBB a → NoBB b → (EndOk a ∨ b.head? ≠ some '[') → NoBB (a ++ b)
+  | [], b, _, hb, _ => by simpa using hb
+  | x :: a', b, ha, hb, hj => by
+    rw [noBB_cons] at ha
+    rw [List.cons_append, noBB_cons]
+    refine ⟨?_, noBB_append a' b ha.2 hb (hj.imp (endOk_tail x a') id)⟩
+    rintro ⟨hx, hh⟩
+    cases a' with
+    | nil =>
+      simp only [List.nil_append] at hh
+      rcases hj with hj | hj
+      · exact hj (by simp [hx])
+      · exact hj hh
+    | cons y ys => exact ha.1 ⟨hx, by simpa using hh⟩
+
+theorem wq_cons_ne (x : Char) (l : Str) (hx : x ≠ '[') (h : WQ l) : WQ (x :: l) :=
+  ⟨noBB_cons_ne x l hx h.1, endOk_cons_ne x l hx h.2⟩
+
+theorem replaceFirst_spec (pat rep : Str) : ∀ (s : Str),
+    replaceFirst pat rep s = s ∨ ∃ a b, s = a ++ pat ++ b ∧ replaceFirst pat rep s = a ++ rep ++ b
+  | [] => Or.inl rfl
+  | c :: rest => by
+    simp only [replaceFirst]
+    split
+    · rename_i hc
+      simp only [Bool.and_eq_true] at hc
+      obtain ⟨b, hb⟩ := List.isPrefixOf_iff_prefix.mp hc.1
+      refine Or.inr ⟨[], b, by simpa using hb.symm, ?_⟩
+      rw [← hb]; simp
+    · rcases replaceFirst_spec pat rep rest with h | ⟨a, b, h1, h2⟩
+      · exact Or.inl (by rw [h])
+      · exact Or.inr ⟨c :: a, b, by simp [h1], by simp [h2]⟩
+
+theorem unescapePipes_noBB : ∀ (n : Nat) (p : Option Char) (t : Str), NoBB t →
+    NoBB (unescapePipes n p t) ∧ ((unescapePipes n p t).head? = some '[' → t.head? = some '[')
+  | 0, _, _, h => by simp only [unescapePipes]; exact ⟨h, id⟩
+  | _ + 1, _, [], _ => by simp [unescapePipes, noBB_nil]
+  | n + 1, p, x :: rest, h => by
+    simp only [unescapePipes]
+    split
+    · have hd : NoBB ((x :: rest).drop (countLeading '\\' (x :: rest) + 1)) :=
+        fun hi => h (hi.trans (List.drop_suffix _ _).isInfix)
+      have ih := (unescapePipes_noBB n (some '|') _ hd).1
+      split
+      · refine ⟨?_, by simp⟩
+        exact noBB_cons_ne _ _ (by decide) (noBB_cons_ne _ _ (by decide) (noBB_cons_ne _ _ (by decide) ih))
+      · refine ⟨?_, by simp⟩
+        exact noBB_cons_ne _ _ (by decide) ih
+    · have hr := (noBB_cons x rest).mp h
+      have ih := unescapePipes_noBB n (some x) rest hr.2
+      refine ⟨(noBB_cons _ _).mpr ⟨?_, ih.1⟩, by simp⟩
+      rintro ⟨hx, hh⟩
+      exact hr.1 ⟨hx, ih.2 hh⟩
+
+theorem wq_inv : LineInv WQ NoBB where
+  suffix := fun s t h hs => ⟨fun hi => h.1 (hi.trans hs.isInfix), endOk_suffix s t hs h.2⟩
+  spaces := fun s n h => by
+    induction n with
+    | zero => simpa using h
+    | succ k ih => rw [List.replicate_succ, List.cons_append]; exact wq_cons_ne _ _ (by decide) ih
+  gt := fun s h => wq_cons_ne _ _ (by decide) h
+  tab := fun s h => by
+    rcases replaceFirst_spec ['>', '\t'] [' ', ' ', ' '] s with e | ⟨a, b, h1, h2⟩
+    · rw [e]; exact h
+    · rw [h2]
+      subst h1
+      have ha : NoBB a := fun hi => h.1 (hi.trans ⟨[], ['>', '\t'] ++ b, by simp⟩)
+      have hb : NoBB b := fun hi => h.1 (hi.trans (List.suffix_append _ _).isInfix)
+      refine ⟨?_, ?_⟩
+      · rw [List.append_assoc]
+        refine noBB_append a _ ha ?_ (Or.inr (by simp))
+        exact noBB_cons_ne _ _ (by decide) (noBB_cons_ne _ _ (by decide) (noBB_cons_ne _ _ (by decide) hb))
+      · have h2' := h.2
+        have e1 : a ++ ['>', '\t'] ++ b = (a ++ ['>']) ++ '\t' :: b := by simp
+        have e2 : a ++ [' ', ' ', ' '] ++ b = (a ++ [' ', ' ']) ++ ' ' :: b := by simp
+        rw [e1, endOk_append_cons] at h2'
+        rw [e2, endOk_append_cons]
+        cases hl : b.getLast? with
+        | none => simp
+        | some z => rw [hl] at h2'; exact h2'
+  nl := ⟨noBB_cons_ne _ _ (by decide) noBB_nil, by simp [EndOk]⟩
+  nlcut := fun a b h =>
+    ⟨fun hi => h.1 (hi.trans ⟨[], b, by simp⟩), by rw [endOk_append_cons]; simp⟩
+  toR := fun s u h hs hi => h.1 (hi.trans hs)
+  flat := fun ls h => by
+    induction ls with
+    | nil => simpa using noBB_nil
+    | cons l rest ih =>
+      rw [List.flatten_cons]
+      exact noBB_append l _ (h l (List.mem_cons_self ..)).1 (ih (fun x hx => h x (List.mem_cons_of_mem _ hx)))
+        (Or.inl (h l (List.mem_cons_self ..)).2)
+  rinfix := fun s u h hs hi => h (hi.trans hs)
+  rnil := noBB_nil
+  join := fun ls h => by
+    induction ls with
+    | nil => simpa [joinNl] using noBB_nil
+    | cons x rest ih =>
+      cases rest with
+      | nil => simpa [joinNl] using h x (List.mem_cons_self ..)
+      | cons y ys =>
+        simp only [joinNl]
+        have hx := h x (List.mem_cons_self ..)
+        have h1 : NoBB (x ++ ['\n']) := noBB_append x _ hx (noBB_cons_ne _ _ (by decide) noBB_nil) (Or.inr (by simp))
+        refine noBB_append _ _ h1 (ih (fun l hl => h l (List.mem_cons_of_mem _ hl))) (Or.inl ?_)
+        rw [endOk_append_cons]; simp
+  unesc := fun n p t h => (unescapePipes_noBB n p t h).1
+
+theorem normalize_wq (t : Str) (h : NoBB t) : ∀ l ∈ Lines.normalize (.str t), WQ l := by
+  intro l hl
+  simp only [Lines.normalize, List.mem_map] at hl
+  obtain ⟨l0, hl0, rfl⟩ := hl
+  have h0 : NoBB l0 := fun hi => h (hi.trans (pySplitlines_infix t l0 hl0))
+  unfold Lines.complete
+  split
+  · rename_i he
+    exact ⟨h0, by rw [EndOk, endsWithNl_getLast l0 he]; decide⟩
+  · refine ⟨noBB_append l0 _ h0 (noBB_cons_ne _ _ (by decide) noBB_nil) (Or.inr (by simp)), ?_⟩
+    rw [endOk_append_cons]; simp
+
+
+/-! ### the two text-level statements for arbitrary configurations -/
+
+/-- inserting `.math` anywhere in the span list changes nothing on a text without '$' -/
+theorem parse_insert_math (cfg' cfg : Document.Cfg) (pre post : List STok)
+    (hb : cfg'.block = cfg.block) (hs' : cfg'.span = pre ++ .math :: post) (hs : cfg.span = pre ++ post)
+    (gas : Nat) (t : Str) (ht : '$' ∉ t) : Document.parse cfg' gas t = Document.parse cfg gas t :=
+  parse_insert noD_inv cfg' cfg pre post .math hb hs' hs
+    (fun u hu core codes => findOne_math_nil u core codes hu) gas t (normalize_noD t ht)
+
+/-- inserting `.githubWiki` anywhere in the span list changes nothing on a text without "[[" -/
+theorem parse_insert_githubWiki (cfg' cfg : Document.Cfg) (pre post : List STok)
+    (hb : cfg'.block = cfg.block) (hs' : cfg'.span = pre ++ .githubWiki :: post) (hs : cfg.span = pre ++ post)
+    (gas : Nat) (t : Str) (ht : isInfix ['[', '['] t = false) : Document.parse cfg' gas t = Document.parse cfg gas t :=
+  parse_insert wq_inv cfg' cfg pre post .githubWiki hb hs' hs
+    (fun u hu core codes => findOne_githubWiki_nil u core codes (isInfix_of_noBB u hu)) gas t
+    (normalize_wq t (noBB_of_isInfix t ht))
+
+end Mistletoe.ContribSame
+
+/-! ## The regenerated configurations -/
+
+namespace Mistletoe.Config
+open Mistletoe
+
+/-- token lists while a `GithubWikiRenderer` is active (regenerated from /repo) -/
+def githubWiki : Option Document.Cfg := cfgOf Gen.RenderMaps.githubWikiBlockTokens Gen.RenderMaps.githubWikiSpanTokens
+/-- token lists while a `MathJaxRenderer` is active (regenerated from /repo) -/
+def mathjax : Option Document.Cfg := cfgOf Gen.RenderMaps.mathjaxBlockTokens Gen.RenderMaps.mathjaxSpanTokens
+/-- token lists while a `TocRenderer` is active (regenerated from /repo) -/
+def toc : Option Document.Cfg := cfgOf Gen.RenderMaps.tocBlockTokens Gen.RenderMaps.tocSpanTokens
+/-- token lists while a `PygmentsRenderer` is active (regenerated from /repo) -/
+def pygments : Option Document.Cfg := cfgOf Gen.RenderMaps.pygmentsBlockTokens Gen.RenderMaps.pygmentsSpanTokens
+
+/-- `R(**opts).render(Document(text))` for a renderer R of the HTML family with token lists `c`:
+    parse under `c`, render with the flavoured HTML renderer (`opts.flavor` selects the suffix) -/
+def renderContrib (c : Option Document.Cfg) (opts : Html.Opts) (gas : Nat) (text : Str) : Option Str :=
+  match c with
+  | none => none
+  | some cfg =>
+    match Document.parse cfg gas text with
+    | .ok d => some (Html.renderFlavored opts d)
+    | .err _ => none
+
+end Mistletoe.Config
+
+namespace Mistletoe.ContribSame
+open Mistletoe Mistletoe.Py Mistletoe.Inline Mistletoe.Html
+
+/-- `w` is `h` with the class `x` inserted at one position -/
+def insertedAt (x : STok) (w h : List STok) : Bool :=
+  let pre := w.takeWhile (· != x)
+  let post := w.drop (pre.length + 1)
+  w == pre ++ x :: post && h == pre ++ post
+
+/-- the configuration `cw` is `ch` with the span class `x` inserted (same block list) -/
+def extendsBy (x : STok) (cw ch : Option Document.Cfg) : Bool :=
+  match cw, ch with
+  | some w, some h =>
+    decide (w.block.types = h.block.types) && (w.block.tableInterrupt == h.block.tableInterrupt) && insertedAt x w.span h.span
+  | _, _ => false
+
+/-- the two configurations carry the same lists -/
+def sameLists (cw ch : Option Document.Cfg) : Bool :=
+  match cw, ch with
+  | some w, some h =>
+    decide (w.block.types = h.block.types) && (w.block.tableInterrupt == h.block.tableInterrupt) && w.span == h.span
+  | _, _ => false
+
+theorem blockCfg_ext (a b : Block.Cfg) (h1 : a.types = b.types) (h2 : a.tableInterrupt = b.tableInterrupt) : a = b := by
+  cases a; cases b; simp_all
+
+theorem extendsBy_spec (x : STok) (w h : Document.Cfg) (he : extendsBy x (some w) (some h) = true) :
+    w.block = h.block ∧ ∃ pre post, w.span = pre ++ x :: post ∧ h.span = pre ++ post := by
+  simp only [extendsBy, insertedAt, Bool.and_eq_true, decide_eq_true_eq, beq_iff_eq] at he
+  exact ⟨blockCfg_ext _ _ he.1.1 he.1.2, _, _, he.2.1, he.2.2⟩
+
+theorem sameLists_spec (w h : Document.Cfg) (he : sameLists (some w) (some h) = true) : w = h := by
+  simp only [sameLists, Bool.and_eq_true, decide_eq_true_eq, beq_iff_eq] at he
+  cases w; cases h
+  simp only [Document.Cfg.mk.injEq]
+  exact ⟨blockCfg_ext _ _ he.1.1 he.1.2, he.2⟩
+
+/-- **the regenerated lists**: GithubWikiRenderer's are HtmlRenderer's with `GithubWiki` inserted in the span
+    list, MathJaxRenderer's with `Math` inserted, TocRenderer's and PygmentsRenderer's are HtmlRenderer's
+    (decided on the tables regenerated from /repo; a change there breaks this proof) -/
+theorem C18_lists :
+    extendsBy .githubWiki Config.githubWiki Config.html = true ∧
+    extendsBy .math Config.mathjax Config.html = true ∧
+    sameLists Config.toc Config.html = true ∧
+    sameLists Config.pygments Config.html = true := by decide +kernel
+
+/-! ## Final theorems -/
+
+/-- **C18, GithubWikiRenderer, text level**: on every text without "[[" the parse under
+    GithubWikiRenderer's token lists is the parse under HtmlRenderer's token lists (every gas, including
+    the error cases) -/
+theorem C18_githubwiki_same_text (cfgW cfgH : Document.Cfg) (hW : Config.githubWiki = some cfgW)
+    (hH : Config.html = some cfgH) (gas : Nat) (t : Str) (ht : isInfix ['[', '['] t = false) :
+    Document.parse cfgW gas t = Document.parse cfgH gas t := by
+  have h := C18_lists.1
+  rw [hW, hH] at h
+  obtain ⟨hb, pre, post, hs', hs⟩ := extendsBy_spec _ _ _ h
+  exact parse_insert_githubWiki cfgW cfgH pre post hb hs' hs gas t ht
+
+/-- **C18, MathJaxRenderer, text level**: on every text without '$' the parse under MathJaxRenderer's
+    token lists is the parse under HtmlRenderer's token lists -/
+theorem C18_mathjax_same_text (cfgM cfgH : Document.Cfg) (hM : Config.mathjax = some cfgM)
+    (hH : Config.html = some cfgH) (gas : Nat) (t : Str) (ht : '$' ∉ t) :
+    Document.parse cfgM gas t = Document.parse cfgH gas t := by
+  have h := C18_lists.2.1
+  rw [hM, hH] at h
+  obtain ⟨hb, pre, post, hs', hs⟩ := extendsBy_spec _ _ _ h
+  exact parse_insert_math cfgM cfgH pre post hb hs' hs gas t ht
+
+/-- **C18, TocRenderer, text level**: TocRenderer installs no token; every text parses as under HtmlRenderer -/
+theorem C18_toc_same_text (cfgT cfgH : Document.Cfg) (hT : Config.toc = some cfgT)
+    (hH : Config.html = some cfgH) (gas : Nat) (t : Str) :
+    Document.parse cfgT gas t = Document.parse cfgH gas t := by
+  have h := C18_lists.2.2.1
+  rw [hT, hH] at h
+  rw [sameLists_spec _ _ h]
+
+/-- **C18, PygmentsRenderer, text level**: PygmentsRenderer installs no token; every text parses as under
+    HtmlRenderer (the renderers differ on `BlockCode` / `CodeFence` only: `C18_resolution`) -/
+theorem C18_pygments_same_text (cfgP cfgH : Document.Cfg) (hP : Config.pygments = some cfgP)
+    (hH : Config.html = some cfgH) (gas : Nat) (t : Str) :
+    Document.parse cfgP gas t = Document.parse cfgH gas t := by
+  have h := C18_lists.2.2.2
+  rw [hP, hH] at h
+  rw [sameLists_spec _ _ h]
+
+theorem configs_some : ∃ cH cW cM cT cP, Config.html = some cH ∧ Config.githubWiki = some cW ∧
+    Config.mathjax = some cM ∧ Config.toc = some cT ∧ Config.pygments = some cP := by
+  have h : Config.html.isSome ∧ Config.githubWiki.isSome ∧ Config.mathjax.isSome ∧ Config.toc.isSome ∧
+      Config.pygments.isSome := by decide +kernel
+  obtain ⟨h1, h2, h3, h4, h5⟩ := h
+  exact ⟨_, _, _, _, _, (Option.some_get h1).symm, (Option.some_get h2).symm, (Option.some_get h3).symm,
+    (Option.some_get h4).symm, (Option.some_get h5).symm⟩
+
+theorem renderFlavored_eq (o : Opts) (fl : Flavor) (d : Doc) :
+    renderFlavored { o with flavor := fl } d = render o d ++ suffix fl := by
+  simp [renderFlavored, render, Opts.q]
+
+/-- what `renderContrib` gives when the parse agrees with the parse under HtmlRenderer's lists -/
+theorem renderContrib_eq (c : Option Document.Cfg) (cfgC cfgH : Document.Cfg) (hc : c = some cfgC)
+    (hH : Config.html = some cfgH) (o : Opts) (fl : Flavor) (gas : Nat) (t : Str)
+    (hp : Document.parse cfgC gas t = Document.parse cfgH gas t) :
+    Config.renderContrib c { o with flavor := fl } gas t = (Config.renderHtml o gas t).map (· ++ suffix fl) := by
+  subst hc
+  simp only [Config.renderContrib, Config.renderHtml, hH, hp]
+  cases Document.parse cfgH gas t with
+  | ok d => simp [renderFlavored_eq]
+  | err e => rfl
+
+/-- **C18, GithubWikiRenderer, end to end**: on every text without "[[",
+    `GithubWikiRenderer(**opts).render(Document(text))` is `HtmlRenderer(**opts).render(Document(text))`
+    (both `none` when the parse raises) -/
+theorem C18_githubwiki_same_output (o : Opts) (gas : Nat) (t : Str) (ht : isInfix ['[', '['] t = false) :
+    Config.renderContrib Config.githubWiki { o with flavor := .githubWiki } gas t = Config.renderHtml o gas t := by
+  obtain ⟨cH, cW, _, _, _, hH, hW, _, _, _⟩ := configs_some
+  rw [renderContrib_eq _ cW cH hW hH o .githubWiki gas t (C18_githubwiki_same_text cW cH hW hH gas t ht)]
+  cases Config.renderHtml o gas t <;> simp [suffix]
+
+/-- **C18, MathJaxRenderer, end to end**: on every text without '$' the output is HtmlRenderer's output
+    followed by the generated script line `MathJaxRenderer.mathjax_src` -/
+theorem C18_mathjax_same_output (o : Opts) (gas : Nat) (t : Str) (ht : '$' ∉ t) :
+    Config.renderContrib Config.mathjax { o with flavor := .mathjax } gas t =
+      (Config.renderHtml o gas t).map (· ++ Gen.RenderMaps.mathjaxSrc) := by
+  obtain ⟨cH, _, cM, _, _, hH, _, hM, _, _⟩ := configs_some
+  rw [renderContrib_eq _ cM cH hM hH o .mathjax gas t (C18_mathjax_same_text cM cH hM hH gas t ht)]
+  rfl
+
+/-- **C18, TocRenderer, end to end**: on every text the output is HtmlRenderer's -/
+theorem C18_toc_same_output (o : Opts) (gas : Nat) (t : Str) :
+    Config.renderContrib Config.toc { o with flavor := .toc } gas t = Config.renderHtml o gas t := by
+  obtain ⟨cH, _, _, cT, _, hH, _, _, hT, _⟩ := configs_some
+  rw [renderContrib_eq _ cT cH hT hH o .toc gas t (C18_toc_same_text cT cH hT hH gas t)]
+  cases Config.renderHtml o gas t <;> simp [suffix]
+
+/-- **C18, PygmentsRenderer, end to end, as far as the model goes**: the model's `renderFlavored` is
+    HtmlRenderer's output on every tree; the real PygmentsRenderer departs from it on `BlockCode` /
+    `CodeFence` only, which the model records in `supported` (see `supported_pygments` below) -/
+theorem C18_pygments_same_output (o : Opts) (gas : Nat) (t : Str) :
+    Config.renderContrib Config.pygments { o with flavor := .pygments } gas t = Config.renderHtml o gas t := by
+  obtain ⟨cH, _, _, _, cP, hH, _, _, _, hP⟩ := configs_some
+  rw [renderContrib_eq _ cP cH hP hH o .pygments gas t (C18_pygments_same_text cP cH hP hH gas t)]
+  cases Config.renderHtml o gas t <;> simp [suffix]
+
+
+/-! ### Pygments: where the model claims to follow the real renderer -/
+
+mutual
+/-- no `BlockCode` / `CodeFence` at any depth -/
+def noCodeBlock : Block → Bool
+  | .blockCode .. => false
+  | .codeFence .. => false
+  | .quote kids _ => noCodeBlocks kids
+  | .list _ _ items _ => noCodeBlocks items
+  | .listItem _ _ _ _ kids _ => noCodeBlocks kids
+  | .table _ _ rows _ => noCodeBlocks rows
+  | _ => true
+def noCodeBlocks : List Block → Bool
+  | [] => true
+  | b :: bs => noCodeBlock b && noCodeBlocks bs
+end
+
+mutual
+theorem supportedInline_pyg (o : Opts) : ∀ (i : Inline),
+    supportedInline { o with flavor := .pygments } i = supportedInline { o with flavor := .html } i
+  | .rawText _ => rfl
+  | .strong _ k => by simp only [supportedInline]; exact supportedInlines_pyg o k
+  | .emphasis _ k => by simp only [supportedInline]; exact supportedInlines_pyg o k
+  | .inlineCode .. => rfl
+  | .strikethrough k => by simp only [supportedInline]; exact supportedInlines_pyg o k
+  | .image .. => rfl
+  | .link _ _ _ _ _ k => by simp only [supportedInline]; exact supportedInlines_pyg o k
+  | .autoLink .. => rfl
+  | .escapeSequence _ => rfl
+  | .lineBreak .. => rfl
+  | .htmlSpan _ => rfl
+  | .math _ => rfl
+  | .githubWiki _ k => by simp [supportedInline]
+  | .xwikiMacroStart _ => rfl
+  | .xwikiMacroEnd _ => rfl
+  | .linkRefDef .. => rfl
+theorem supportedInlines_pyg (o : Opts) : ∀ (k : List Inline),
+    supportedInlines { o with flavor := .pygments } k = supportedInlines { o with flavor := .html } k
+  | [] => rfl
+  | i :: is => by
+    simp only [supportedInlines]
+    rw [supportedInline_pyg o i, supportedInlines_pyg o is]
+end
+
+theorem and4 (a b c d : Bool) : (a && b && (c && d)) = (a && c && (b && d)) := by
+  cases a <;> cases b <;> cases c <;> cases d <;> rfl
+
+mutual
+theorem supportedBlock_pyg (o : Opts) : ∀ (b : Block),
+    supportedBlock { o with flavor := .pygments } b = (supportedBlock { o with flavor := .html } b && noCodeBlock b)
+  | .paragraph k _ => by simp only [supportedBlock, noCodeBlock, Bool.and_true]; exact supportedInlines_pyg o k
+  | .heading _ _ k _ => by simp only [supportedBlock, noCodeBlock, Bool.and_true]; exact supportedInlines_pyg o k
+  | .setextHeading _ _ k _ => by simp only [supportedBlock, noCodeBlock, Bool.and_true]; exact supportedInlines_pyg o k
+  | .quote kids _ => by simp only [supportedBlock, noCodeBlock]; exact supportedBlocks_pyg o kids
+  | .blockCode .. => by simp [supportedBlock, noCodeBlock]
+  | .codeFence .. => by simp [supportedBlock, noCodeBlock]
+  | .list _ _ items _ => by simp only [supportedBlock, noCodeBlock]; exact supportedBlocks_pyg o items
+  | .listItem _ _ _ _ kids _ => by simp only [supportedBlock, noCodeBlock]; exact supportedBlocks_pyg o kids
+  | .table _ header rows _ => by
+    simp only [supportedBlock, noCodeBlock]
+    rw [supportedRows_pyg o header, supportedBlocks_pyg o rows, Bool.and_assoc]
+  | .tableRow _ cells _ => by simp only [supportedBlock, noCodeBlock, Bool.and_true]; exact supportedCells_pyg o cells
+  | .tableCell a k _ => by simp only [supportedBlock, noCodeBlock, Bool.and_true]; rw [supportedInlines_pyg o k]
+  | .thematicBreak .. => rfl
+  | .htmlBlock .. => by simp [supportedBlock, noCodeBlock]
+  | .blankLine _ => rfl
+  | .linkRefDefBlock .. => rfl
+theorem supportedBlocks_pyg (o : Opts) : ∀ (bs : List Block),
+    supportedBlocks { o with flavor := .pygments } bs = (supportedBlocks { o with flavor := .html } bs && noCodeBlocks bs)
+  | [] => rfl
+  | b :: bs => by
+    simp only [supportedBlocks, noCodeBlocks]
+    rw [supportedBlock_pyg o b, supportedBlocks_pyg o bs, and4]
+theorem supportedRows_pyg (o : Opts) : ∀ (bs : List Block),
+    supportedRows { o with flavor := .pygments } bs = supportedRows { o with flavor := .html } bs
+  | [] => rfl
+  | .tableRow _ cells _ :: rest => by
+    simp only [supportedRows]
+    rw [supportedCells_pyg o cells, supportedRows_pyg o rest]
+  | .paragraph .. :: _ => rfl
+  | .heading .. :: _ => rfl
+  | .setextHeading .. :: _ => rfl
+  | .quote .. :: _ => rfl
+  | .blockCode .. :: _ => rfl
+  | .codeFence .. :: _ => rfl
+  | .list .. :: _ => rfl
+  | .listItem .. :: _ => rfl
+  | .table .. :: _ => rfl
+  | .tableCell .. :: _ => rfl
+  | .thematicBreak .. :: _ => rfl
+  | .htmlBlock .. :: _ => rfl
+  | .blankLine _ :: _ => rfl
+  | .linkRefDefBlock .. :: _ => rfl
+theorem supportedCells_pyg (o : Opts) : ∀ (bs : List Block),
+    supportedCells { o with flavor := .pygments } bs = supportedCells { o with flavor := .html } bs
+  | [] => rfl
+  | .tableCell a k _ :: rest => by
+    simp only [supportedCells]
+    rw [supportedInlines_pyg o k, supportedCells_pyg o rest]
+  | .paragraph .. :: _ => rfl
+  | .heading .. :: _ => rfl
+  | .setextHeading .. :: _ => rfl
+  | .quote .. :: _ => rfl
+  | .blockCode .. :: _ => rfl
+  | .codeFence .. :: _ => rfl
+  | .list .. :: _ => rfl
+  | .listItem .. :: _ => rfl
+  | .table .. :: _ => rfl
+  | .tableRow .. :: _ => rfl
+  | .thematicBreak .. :: _ => rfl
+  | .htmlBlock .. :: _ => rfl
+  | .blankLine _ :: _ => rfl
+  | .linkRefDefBlock .. :: _ => rfl
+end
+
+/-- **Pygments**: the model declares the pygments flavour faithful (`supported`) exactly on the trees that
+    HtmlRenderer supports and that contain no `BlockCode` / `CodeFence` at any depth; on those trees
+    (`C18_render_same`) the output is HtmlRenderer's -/
+theorem supported_pygments (o : Opts) (d : Doc) :
+    supported { o with flavor := .pygments } d = (supported { o with flavor := .html } d && noCodeBlocks d.kids) :=
+  supportedBlocks_pyg o d.kids
+
+/-! ## Part 5: non-vacuity -/
+
+/-- emphasis, a link, a table with emphasis and raw HTML in a cell, an HTML block, strong, inline code,
+    an unmatched '[' — no "[[" and no '$' -/
+def sample : Str :=
+  "# T *a* [l](u)\n\n| a | b |\n|---|---|\n| *c* | <b>d</b> |\n\n<div>x</div>\n\np **s** `c` [x\n".toList
+
+example : isInfix ['[', '['] sample = false ∧ '$' ∉ sample := by decide +kernel
+
+/-- kernel evaluation: the three renderers' models return HtmlRenderer's output (+ the script line), and it
+    is the expected HTML -/
+example :
+    Config.renderHtml {} 200 sample = some
+      ("<h1>T <em>a</em> <a href=\"u\">l</a></h1>\n<table>\n<thead>\n<tr>\n<th align=\"left\">a</th>\n<th align=\"left\">b</th>\n</tr>\n</thead>\n<tbody>\n<tr>\n<td align=\"left\"><em>c</em></td>\n<td align=\"left\"><b>d</b></td>\n</tr>\n</tbody>\n</table>\n<div>x</div>\n<p>p <strong>s</strong> <code>c</code> [x</p>\n").toList ∧
+    Config.renderContrib Config.githubWiki { flavor := .githubWiki } 200 sample = Config.renderHtml {} 200 sample ∧
+    Config.renderContrib Config.toc { flavor := .toc } 200 sample = Config.renderHtml {} 200 sample ∧
+    Config.renderContrib Config.mathjax { flavor := .mathjax } 200 sample =
+      (Config.renderHtml {} 200 sample).map (· ++ Gen.RenderMaps.mathjaxSrc) := by decide +kernel
+
+/-- the theorems applied to the sample: the parses under the three configurations are equal -/
+example : ∃ cH cW cM cT, Config.html = some cH ∧ Config.githubWiki = some cW ∧ Config.mathjax = some cM ∧
+    Config.toc = some cT ∧
+    Document.parse cW 200 sample = Document.parse cH 200 sample ∧
+    Document.parse cM 200 sample = Document.parse cH 200 sample ∧
+    Document.parse cT 200 sample = Document.parse cH 200 sample ∧
+    (Document.parse cH 200 sample).isOk = true := by
+  obtain ⟨cH, cW, cM, cT, _, hH, hW, hM, hT, _⟩ := configs_some
+  refine ⟨cH, cW, cM, cT, hH, hW, hM, hT,
+    C18_githubwiki_same_text cW cH hW hH 200 sample (by decide +kernel),
+    C18_mathjax_same_text cM cH hM hH 200 sample (by decide +kernel),
+    C18_toc_same_text cT cH hT hH 200 sample, ?_⟩
+  have h : (Config.html.map (fun c => (Document.parse c 200 sample).isOk)) = some true := by decide +kernel
+  rw [hH] at h
+  simpa using h
+
+/-- WITH the extension the parses differ: "[[a|b]]" is a GithubWiki token under GithubWikiRenderer's lists -/
+def wikiSample : Str := "x [[a|b]] y\n".toList
+
+example : ∀ cW cH, Config.githubWiki = some cW → Config.html = some cH →
+    Document.parse cW 50 wikiSample ≠ Document.parse cH 50 wikiSample := by
+  intro cW cH hW hH he
+  have h1 : Config.renderContrib Config.githubWiki { flavor := .githubWiki } 50 wikiSample =
+      some "<p>x <a href=\"b\">a</a> y</p>\n".toList := by decide +kernel
+  have h2 : Config.renderContrib Config.html { flavor := .githubWiki } 50 wikiSample =
+      some "<p>x [[a|b]] y</p>\n".toList := by decide +kernel
+  simp only [Config.renderContrib, hW, hH, he] at h1 h2
+  rw [h1] at h2
+  revert h2
+  decide
+
+/-- … and with '$': "$x$" is a Math token under MathJaxRenderer's lists -/
+example : Config.renderContrib Config.mathjax { flavor := .mathjax } 50 "a $x$ b\n".toList =
+      some ("<p>a \\(x\\) b</p>\n".toList ++ Gen.RenderMaps.mathjaxSrc) ∧
+    Config.renderHtml {} 50 "a $x$ b\n".toList = some "<p>a $x$ b</p>\n".toList := by decide +kernel
+
+/-- the span resolver ignores the class index: a nested candidate set, relabelled -/
+example : Span.tokenize [⟨0, 9, 2, 7, 3, true, 4, 0⟩, ⟨3, 6, 4, 5, 3, true, 4, 1⟩, ⟨1, 3, 1, 3, 5, false, 1, 2⟩] 10 =
+    [.tok ⟨0, 9, 2, 7, 3, true, 4, 0⟩ [.raw 2 3, .tok ⟨3, 6, 4, 5, 3, true, 4, 1⟩ [.raw 4 5], .raw 6 7], .raw 9 10] := by
+  decide +kernel
+
+/-- the hypotheses of `tokenizeInner_insert` hold for a string with brackets but no "[[" -/
+example : tokenizeInner ([.escapeSequence] ++ .githubWiki :: [.coreTokens, .inlineCode]) [] "[a] *b*".toList =
+    tokenizeInner ([.escapeSequence] ++ [.coreTokens, .inlineCode]) [] "[a] *b*".toList :=
+  tokenizeInner_insert _ _ _ _ _ (fun core codes => findOne_githubWiki_nil _ core codes (by decide +kernel))
 
 end Mistletoe.ContribSame
